@@ -51,7 +51,9 @@ class SetDelay(Unit):
         ex, cfg = ctx.ex, ctx.cfg
         old_dd, new_dd = z3.Const("old_dd", Leaf), z3.Const("new_dd", Leaf)
         old_delay, new_delay = z3.Real("old_delay"), z3.Real("new_delay")
-        obj = Rec(self.cls, dict(delay_dist=old_dd, delay=old_delay, name="n"), module="rex/node.py")
+        # the object has the fields of a real node / connection (so that code touching its neighbours can run); only delay_dist / delay may change
+        peer = Rec("BaseNode", dict(name="peer", inputs={}, outputs={}), module="rex/node.py")
+        obj = Rec(self.cls, dict(delay_dist=old_dd, delay=old_delay, name="n", input_node=peer, output_node=peer, inputs={}, outputs={}), module="rex/node.py")
         # class invariant established by __init__: the stored distribution is a wrapped DelayDistribution
         ctx.require(z3.And(is_dd(old_dd), z3.Not(is_distrax(old_dd))))
         if self.cls == "BaseNode":
@@ -80,7 +82,7 @@ class SetDelay(Unit):
         ctx.ensure("delay_dist' = wrap(given) if given else old", obj.f["delay_dist"] == want_dd)
         ctx.ensure("delay' = given if given else old", obj.f["delay"] == (new_delay if cfg["d"] else old_delay))
         ctx.ensure("stored distribution is a DelayDistribution", z3.And(is_dd(obj.f["delay_dist"]), z3.Not(is_distrax(obj.f["delay_dist"]))))
-        ctx.ensure("frame: only delay_dist and delay change", z3.BoolVal(set(obj.f) == {"delay_dist", "delay", "name"} and obj.f["name"] == "n"))
+        ctx.ensure("frame: only delay_dist and delay change", z3.BoolVal(set(obj.f) == {"delay_dist", "delay", "name", "input_node", "output_node", "inputs", "outputs"} and obj.f["name"] == "n"))
 
     def replay(self, label, clause, probes, model):
         return {"kind": "set_delay", "cls": self.cls, "dist_given": "dist=given" in label, "delay_given": "delay=given" in label,
@@ -187,7 +189,63 @@ def aw_same(a, b):
     return same(a, b)
 
 
-UNITS = [SetDelay("Connection"), SetDelay("BaseNode"), Phase(), InfoRoundTrip()]
+class PhaseHistory(Unit):
+    """'takes effect in subsequent phases': after a phase has been read, a set_delay two hops upstream (or a new upstream connection) is
+    reflected the next time the phase is read (multi-step history: read, change, read again)"""
+    name = "phase after set_delay (history)"
+    target = "rex/node.py::BaseNode.set_delay"
+    props = ("C16",)
+
+    def opts(self, cfg):
+        return {"isinstance": _isinstance}
+
+    def summaries(self, cfg):
+        return {("StaticDist", "create"): _create}
+
+    def configs(self):
+        yield "node delay two hops upstream", dict(what="node")
+        yield "connection delay two hops upstream", dict(what="conn")
+        yield "new upstream connection", dict(what="connect")
+
+    def run(self, ctx):
+        ex, cfg = ctx.ex, ctx.cfg
+        # nodes and connections are built by the REAL constructors (BaseNode.__init__, connect -> Connection.__init__), so attributes a change adds exist
+        cref = ex.module_global(ctx.repo.module("rex/node.py"), "BaseNode")
+
+        def real_node(name):
+            dd, dl = z3.Const(f"{name}.delay_dist", Leaf), z3.Real(f"{name}.delay")
+            ctx.require(z3.And(dl >= 0, is_dd(dd), z3.Not(is_distrax(dd)), z3.Not(is_trainable(dd))))
+            return ex.call(cref, [], dict(name=name, rate=z3.Real(f"{name}.rate"), delay=dl, delay_dist=dd))
+
+        def real_connect(dst, src, tag):
+            dd, dl = z3.Const(f"{tag}.delay_dist", Leaf), z3.Real(f"{tag}.delay")
+            ctx.require(z3.And(dl >= 0, is_dd(dd), z3.Not(is_distrax(dd))))
+            ex.call(ex.getattr(dst, "connect"), [src], dict(delay=dl, delay_dist=dd))
+            return dst.f["inputs"][src.f["name"]]
+        s0, m, n, extra = real_node("s"), real_node("m"), real_node("n"), real_node("x")
+        c_sm, c_mn = real_connect(m, s0, "sm"), real_connect(n, m, "mn")
+        before = toz(ex.getattr(n, "phase"))                     # first read (a cache, if any, is filled here)
+        ctx.ensure("before the change: phase(n) = delay(s) + delay(s->m) + delay(m) + delay(m->n)", before == s0.f["delay"] + c_sm.f["delay"] + m.f["delay"] + c_mn.f["delay"])
+        nd = z3.Real("new_delay")
+        ctx.require(nd >= 0)
+        if cfg["what"] == "node":
+            ex.call(ex.getattr(s0, "set_delay"), [], dict(delay=nd))
+            want = nd + c_sm.f["delay"] + m.f["delay"] + c_mn.f["delay"]
+        elif cfg["what"] == "conn":
+            ex.call(ex.getattr(c_sm, "set_delay"), [], dict(delay=nd))
+            want = s0.f["delay"] + nd + m.f["delay"] + c_mn.f["delay"]
+        else:
+            # s gains an input from x: x -> s -> m -> n
+            xd, cd = z3.Real("x.conn_delay"), z3.Const("x.conn_dist", Leaf)
+            ctx.require(z3.And(xd >= 0, is_dd(cd), z3.Not(is_distrax(cd))))
+            ex.call(ex.getattr(s0, "connect"), [extra], dict(delay=xd, delay_dist=cd))
+            want = extra.f["delay"] + xd + s0.f["delay"] + c_sm.f["delay"] + m.f["delay"] + c_mn.f["delay"]
+        after = toz(ex.getattr(n, "phase"))
+        ctx.ensure("C16 the change takes effect in the phase of every downstream node the next time it is read", after == want)
+        info = ex.getattr(n, "info") if False else None
+
+
+UNITS = [SetDelay("Connection"), SetDelay("BaseNode"), Phase(), InfoRoundTrip(), PhaseHistory()]
 
 
 def check(tier, seed):
